@@ -24,6 +24,7 @@ EXPLANATION = (
     "(the resolved AST has no comment field); (NO-LAYOUT-FLOW) lowering and emission never use a span except the line of "
     "`<!>` (the one difference the property allows); (PARENS) a parenthesised expression resolves to its content."
     ' (CURSOR) the token cursor is moved only by Context::skip/prev; skip ends with one loop passing comments and (under the flag) newlines in any interleaving; switching newline skipping on re-normalises the position.'
+    " (ARROW rhs level) the call after `->` is parsed at call level; (PARENS shape tests) name resolution's tests on the shape of an unresolved expression look through parentheses; (NEWLINE-MODE continuation) the argument list of a prime call continues over any run of line breaks next to a comma."
 )
 UNDECIDED = ("that every pair of surface variants parses to the same tree in all combinations (the prime-call argument loop ends at the "
              "first expression that fails to parse, which is layout dependent by design).")
